@@ -19,7 +19,7 @@ Record dstate := { last_code : option code; last_decoder : option nat }.
 Inductive dresult := RNone | RCode (c : code) | RRaise (e : irerr) | RRaisePy (e : pyerr).
 
 Definition is_rep_err (e : irerr) : bool :=
-  match e with RepeatLeadInError | RepeatLeadOutError | RepeatTimeoutExpired => true | _ => false end.
+  match e with RepeatLeadInError | RepeatLeadOutError | RepeatTimeoutExpired | ExpectingMoreData => true | _ => false end.
 
 Section Dispatch.
   Variable PS : Type.                                     (* state of all protocol instances *)
@@ -36,7 +36,7 @@ Section Dispatch.
   (* one try-block: call decoder p; [on_code] stores the result, [on_lead_in] is the RepeatLeadInError handler,
      [fallback] is what follows `except DecodeError: pass` *)
   Definition attempt (p : nat) (ps : PS) (st : dstate)
-             (on_code : PS -> code -> R) (on_lead_in : PS -> R) (fallback : PS -> R) : R :=
+             (on_code : PS -> code -> R) (on_lead_in : PS -> R) (on_more : PS -> R) (fallback : PS -> R) : R :=
     let '(ps', o) := pdecode p ps in
     match o with
     | OCode c => on_code ps' c
@@ -44,8 +44,9 @@ Section Dispatch.
         if is_decode_error e then fallback ps'
         else match e with
              | RepeatLeadInError => on_lead_in ps'
+             | ExpectingMoreData => on_more ps'        (* first part of a multi-part code: nothing to report yet *)
              | RepeatLeadOutError | RepeatTimeoutExpired => (ps', st, RNone)
-             | _ => (ps', st, RRaise e)               (* ExpectingMoreData is not caught by the dispatcher *)
+             | _ => (ps', st, RRaise e)                (* unreachable: the remaining errors are DecodeErrors *)
              end
     | OPy e => (ps', st, RRaisePy e)
     end.
@@ -58,6 +59,7 @@ Section Dispatch.
         if possible cfg freq p then
           attempt p ps st
             (fun ps' c => (ps', {| last_code := Some c; last_decoder := Some p |}, RCode c))
+            (fun ps' => (ps', {| last_code := last_code st; last_decoder := Some p |}, RNone))
             (fun ps' => (ps', {| last_code := last_code st; last_decoder := Some p |}, RNone))
             (fun ps' => scan cfg freq ps' st r)
         else scan cfg freq ps st r
@@ -76,6 +78,7 @@ Section Dispatch.
                           | Some lc => (ps', {| last_code := last_code st; last_decoder := Some (c_pid lc) |}, RNone)
                           | None => via_scan ps'
                           end)
+              (fun ps' => (ps', st, RNone))
               via_scan
           else via_scan ps
       | None => via_scan ps
@@ -86,6 +89,7 @@ Section Dispatch.
           if held_match then (ps, st, RNone)
           else attempt (c_pid lc) ps st keep
                  (fun ps' => (ps', {| last_code := last_code st; last_decoder := Some (c_pid lc) |}, RNone))
+                 (fun ps' => (ps', st, RNone))
                  via_scan
         else second ps
     | None => second ps
@@ -195,6 +199,7 @@ Section Traced.
               forall s1 st1 r1,
               attempt TPS tdecode p (ps, []) st
                 (fun ps' c => (ps', {| last_code := Some c; last_decoder := last_decoder st |}, RCode c)) on_li
+                (fun ps' => (ps', st, RNone))
                 (fun ps' => scan TPS tdecode cfg freq ps' st (seq 0 (length cfg))) = (s1, st1, r1) ->
               explains cfg freq (seq 0 (length cfg)) (snd s1) r1) as Hatt.
     { intros p on_li Hp Hli s1 st1 r1 Ha. unfold attempt, tdecode in Ha. cbn [fst snd app] in Ha.
@@ -206,7 +211,7 @@ Section Traced.
           * eapply Hli. exact Ha.
           * injection Ha as <- <- <-. right. exists [], p, RepeatLeadOutError. repeat split; auto.
           * injection Ha as <- <- <-. right. exists [], p, RepeatTimeoutExpired. repeat split; auto.
-          * injection Ha as <- <- <-. exact I.
+          * injection Ha as <- <- <-. right. exists [], p, ExpectingMoreData. repeat split; auto.
       - injection Ha as <- <- <-. exact I. }
     destruct (last_code st) as [lc|] eqn:Elc.
     - destruct (possible cfg freq (c_pid lc)) eqn:Ep.
